@@ -216,11 +216,12 @@ def r5(ctx):
 @rule("C03", "R6", "CMP", "clusters with fewer than 2 points are repopulated before they are fitted (the covariance of a single point is NaN)")
 def r6(ctx):
     from . import c08, c09
-    ctx.sub(c08.r2)
-    ctx.sub(c09.r2)
+    # (who else is refilled, and when repopulation must *not* run, is C08's / C09's business)
+    ctx.sub(c08.r2, only=("recipient:covers", "recipient:ids", "recipient:loop"))
+    ctx.sub(c09.r2, only=("order:repopulate<statistics", "thread:->statistics", "covers:repopulate"))
 
 
 @rule("C03", "R7", "FLOW", "aggregates over an empty cluster are guarded (no NaN mean / median in the result)")
 def r7(ctx):
     from . import c06
-    ctx.sub(c06.r2)
+    ctx.sub(c06.r2, only=("empty-guard:",))   # which list is averaged is C06's business
